@@ -23,7 +23,18 @@ type sbrInfo struct {
 	flags   map[string]bool
 	classes []string
 	log     []string
+	// the end-state oracle ran in a state in which the scheduler's two loops wait for each other on their full event
+	// channels (known finding sbrKnownEventCycle); endStateFrom = index of the first violation recorded by that oracle
+	eventCycle   bool
+	endStateFrom int
 }
+
+// Finding of this target (server/sched.go, repaired in /repo as ea907bcc6): processCompleted waited to post on a full
+// unloadedCh while processPending (the only reader of unloadedCh) waited to post on a full expiredCh (whose only reader is
+// processCompleted); handlers calling expireRunner piled up behind. Reached with OLLAMA_MAX_QUEUE=2 (the capacity of both
+// channels) after several failed or abandoned loads. replays/C02/sched-event-channels-full-cycle.json is its regression.
+// The signature stays next to the oracle: it only excludes anything while the finding is listed in known_findings.json.
+const sbrKnownEventCycle = "sched-event-channels-full-cycle"
 
 type sbrPendingViol struct {
 	c    sbrCase
@@ -192,6 +203,7 @@ func sbrRun(t *testing.T, c sbrCase, prop string) (info sbrInfo, viol []sbViolat
 	defer e.mu.Unlock()
 	info.flags = e.flags
 	info.log = e.log
+	info.eventCycle, info.endStateFrom = x.eventCycle, x.endStateFrom
 	for f := range e.flags {
 		info.classes = append(info.classes, "rt_"+f)
 	}
@@ -215,19 +227,30 @@ func sbrRun(t *testing.T, c sbrCase, prop string) (info sbrInfo, viol []sbViolat
 // waits for quiescence) becomes a reported outcome. Handlers of clients that gave up are parked in scheduleRunner for
 // ever on the unchanged tree too: they are durably blocked, never keep the harness waiting and are not part of the signature.
 // sbrBlockedSignature is sbBlockedSignature with this file's watchdog excluded and with the handlers that wait on a
-// runner's mutex (scheduleRunner, expireRunner called from a handler) added to the signature.
-func sbrBlockedSignature() (sig string, ok bool, dump string) {
+// runner's mutex (scheduleRunner, expireRunner called from a handler) added to the signature. With ownBubble (caller
+// inside a bubble) only goroutines of the caller's bubble are listed: what earlier cases left parked is not this case's state.
+func sbrBlockedSignature(ownBubble bool) (sig string, ok bool, dump string) {
 	buf := make([]byte, 4<<20)
 	buf = buf[:runtime.Stack(buf, true)]
 	dump = string(buf)
 	ok = true
+	bubble := ""
 	var parts []string
-	for _, g := range strings.Split(dump, "\n\n") {
+	for gi, g := range strings.Split(dump, "\n\n") {
 		m := sbHdr.FindStringSubmatch(g)
-		if m == nil || strings.Contains(g, "sbrWatchdog") {
+		if m == nil {
 			continue
 		}
 		state := m[2]
+		if gi == 0 && ownBubble { // the caller comes first
+			if i := strings.Index(state, "synctest bubble "); i >= 0 {
+				bubble = strings.TrimSpace(state[i:])
+			}
+			continue
+		}
+		if strings.Contains(g, "sbrWatchdog") || bubble != "" && !strings.HasSuffix(state, bubble) {
+			continue
+		}
 		if strings.HasPrefix(state, "running") || strings.HasPrefix(state, "runnable") || strings.HasPrefix(state, "syscall") {
 			ok = false
 		}
@@ -268,9 +291,9 @@ func sbrWatchdog(rec *vfkit.Recorder, target, prop string, cur func() (sbrCase, 
 			if time.Since(lastChange) < 6*time.Second {
 				continue
 			}
-			s1, ok1, _ := sbrBlockedSignature()
+			s1, ok1, _ := sbrBlockedSignature(false)
 			time.Sleep(3 * time.Second)
-			s2, ok2, dump := sbrBlockedSignature()
+			s2, ok2, dump := sbrBlockedSignature(false)
 			if sbProgress.Load() != last || !ok1 || !ok2 || s1 != s2 {
 				continue
 			}
@@ -322,7 +345,7 @@ func sbrTest(t *testing.T, target, prop string) {
 		}
 		return sbrCase{}, false
 	})
-	check := func(c sbrCase) (sbrInfo, error) {
+	check := func(c sbrCase, strict bool) (sbrInfo, error) {
 		curCase.Store(&c)
 		rec.Current(target, c)
 		info, viol, err := sbrRun(t, c, prop)
@@ -334,6 +357,13 @@ func sbrTest(t *testing.T, target, prop string) {
 		}
 		if os.Getenv("SBR_LOG") != "" { // development aid
 			fmt.Printf("---- case\n    %s\n", strings.Join(info.log, "\n    "))
+		}
+		if info.eventCycle && !strict && rec.Known(sbrKnownEventCycle) {
+			// listed finding: its class (an end state in which the two scheduler loops wait for each other) is excluded from
+			// the generated search; what the case showed before that state is still judged. A replay is judged strictly.
+			rec.Excluded(sbrKnownEventCycle)
+			info.classes = append(info.classes, "rt_excluded_known_event_cycle")
+			viol = viol[:min(len(viol), info.endStateFrom)]
 		}
 		for _, v := range viol {
 			if v.prop == prop {
@@ -360,7 +390,7 @@ func sbrTest(t *testing.T, target, prop string) {
 			fmt.Sscan(v, &n)
 		}
 		for i := 0; i < n; i++ {
-			if _, err := check(rc); err != nil {
+			if _, err := check(rc, os.Getenv("SBR_REPLAY_LENIENT") == ""); err != nil { // a replay is judged strictly (the variable is a development aid)
 				rec.Fail(target, rc, err.Error())
 				t.Fatalf("%s violated: %v", prop, err)
 			}
@@ -372,7 +402,7 @@ func sbrTest(t *testing.T, target, prop string) {
 			return
 		}
 		c := sbrGen(rt)
-		info, err := check(c)
+		info, err := check(c, false)
 		rec.Case(c, sbrNontrivial(prop, info), info.classes...)
 		if err != nil {
 			rec.Fail(target, c, err.Error())
